@@ -25,6 +25,12 @@ pub struct Step {
     /// only type-checks with this variable narrowed by an earlier step
     #[serde(default)]
     pub needs_narrowed: Option<String>,
+    /// defines a function whose branches have different result types (call sites specialise)
+    #[serde(default)]
+    pub dispatch_def: Option<String>,
+    /// calls such a function; its static result type depends on the call-site specialisation
+    #[serde(default)]
+    pub dispatch_call: Option<String>,
 }
 
 #[derive(Clone, Debug, Serialize, Deserialize, Default)]
@@ -69,6 +75,7 @@ struct G {
     clsf: Vec<String>,
     unions: Vec<String>,
     narrowed: Vec<String>,
+    dispf: Vec<String>,
     n: usize,
     last_int: bool,
     lit: u8,
@@ -110,7 +117,7 @@ impl G {
         format!("[{a}, {l}] __binary_concat__")
     }
     fn step(&mut self, rng: &mut Rng) -> Vec<Step> {
-        let s = |src: String| Step { src, alias: false, fails: false, tailcall: false, narrows: None, needs_narrowed: None };
+        let s = |src: String| Step { src, alias: false, fails: false, tailcall: false, narrows: None, needs_narrowed: None, dispatch_def: None, dispatch_call: None };
         let mut out = Vec::new();
         let was_int = self.last_int;
         self.last_int = false;
@@ -124,14 +131,28 @@ impl G {
         // type on a later one
         if !self.narrowed.is_empty() && rng.chance(1, 4) {
             let u = rng.pick(&self.narrowed).clone();
-            out.push(Step { src: format!("[{u}, {}] __integer_add__", rng.range(1, 9)), alias: false, fails: false, tailcall: false, narrows: None, needs_narrowed: Some(u) });
+            out.push(Step { src: format!("[{u}, {}] __integer_add__", rng.range(1, 9)), alias: false, fails: false, tailcall: false, narrows: None, needs_narrowed: Some(u), dispatch_def: None, dispatch_call: None });
             self.last_int = true;
             return out;
         }
         if !self.unions.is_empty() && rng.chance(1, 3) {
             let u = self.unions.remove(rng.usize(self.unions.len()));
-            out.push(Step { src: format!("{u} ='int"), alias: false, fails: false, tailcall: false, narrows: Some(u.clone()), needs_narrowed: None });
+            out.push(Step { src: format!("{u} ='int"), alias: false, fails: false, tailcall: false, narrows: Some(u.clone()), needs_narrowed: None, dispatch_def: None, dispatch_call: None });
             self.narrowed.push(u);
+            return out;
+        }
+        // a function whose branches have different result types: a call site with an int argument is
+        // specialised to 'int, so the flowing result can be used as an int on the next step
+        if !self.dispf.is_empty() && rng.chance(1, 4) {
+            let f = rng.pick(&self.dispf).clone();
+            out.push(Step { src: format!("{} {f}", rng.range(1, 60)), alias: false, fails: false, tailcall: false, narrows: None, needs_narrowed: None, dispatch_def: None, dispatch_call: Some(f) });
+            self.last_int = true;
+            return out;
+        }
+        if rng.chance(1, 16) {
+            let f = self.fresh("dz");
+            out.push(Step { src: format!("{f} = #('int | 'bin) {{ | =('int)n => n | =('bin)b => Bin }}"), alias: false, fails: false, tailcall: false, narrows: None, needs_narrowed: None, dispatch_def: Some(f.clone()), dispatch_call: None });
+            self.dispf.push(f);
             return out;
         }
         if rng.chance(1, 14) {
@@ -142,7 +163,7 @@ impl G {
         }
         if rng.chance(1, 10) {
             let ty = self.fresh("al");
-            out.push(Step { src: format!("'{ty} = ['int, 'bin]"), alias: true, fails: false, tailcall: false, narrows: None, needs_narrowed: None });
+            out.push(Step { src: format!("'{ty} = ['int, 'bin]"), alias: true, fails: false, tailcall: false, narrows: None, needs_narrowed: None, dispatch_def: None, dispatch_call: None });
             self.last_int = was_int;
             return out;
         }
@@ -171,14 +192,14 @@ impl G {
         }
         if !self.fns.is_empty() && rng.chance(1, 6) {
             let f = rng.pick(&self.fns).clone();
-            out.push(Step { src: format!("{} ^{f}", rng.range(1, 30)), alias: false, fails: false, tailcall: true, narrows: None, needs_narrowed: None });
+            out.push(Step { src: format!("{} ^{f}", rng.range(1, 30)), alias: false, fails: false, tailcall: true, narrows: None, needs_narrowed: None, dispatch_def: None, dispatch_call: None });
             return out;
         }
         match rng.below(28) {
             24 => {
                 // an alias-only step is transparent to the flow: the previous value keeps flowing
                 let ty = self.fresh("al");
-                out.push(Step { src: format!("'{ty} = ['int, 'bin]"), alias: true, fails: false, tailcall: false, narrows: None, needs_narrowed: None });
+                out.push(Step { src: format!("'{ty} = ['int, 'bin]"), alias: true, fails: false, tailcall: false, narrows: None, needs_narrowed: None, dispatch_def: None, dispatch_call: None });
                 self.last_int = was_int;
                 if was_int && rng.chance(1, 2) {
                     out.push(s(format!("[~, {}] __integer_add__", rng.range(1, 9))));
@@ -203,8 +224,8 @@ impl G {
             20 => {
                 // a pattern type whose set of inhabitants grows on later lines
                 let (v, o) = (self.fresh("vv"), self.fresh("opt"));
-                out.push(Step { src: format!("'{v} = 'int | 'bin"), alias: true, fails: false, tailcall: false, narrows: None, needs_narrowed: None });
-                out.push(Step { src: format!("'{o} = Some['{v}] | None"), alias: true, fails: false, tailcall: false, narrows: None, needs_narrowed: None });
+                out.push(Step { src: format!("'{v} = 'int | 'bin"), alias: true, fails: false, tailcall: false, narrows: None, needs_narrowed: None, dispatch_def: None, dispatch_call: None });
+                out.push(Step { src: format!("'{o} = Some['{v}] | None"), alias: true, fails: false, tailcall: false, narrows: None, needs_narrowed: None, dispatch_def: None, dispatch_call: None });
                 let n = self.fresh("of");
                 out.push(s(format!("{n} = #'{o} {{ | =Some[x] => x | 0 }}")));
                 self.optf.push(n);
@@ -328,7 +349,7 @@ impl G {
             }
             16 => {
                 let ty = self.fresh("ty");
-                out.push(Step { src: format!("'{ty} = 'int | 'bin"), alias: true, fails: false, tailcall: false, narrows: None, needs_narrowed: None });
+                out.push(Step { src: format!("'{ty} = 'int | 'bin"), alias: true, fails: false, tailcall: false, narrows: None, needs_narrowed: None, dispatch_def: None, dispatch_call: None });
                 let n = self.fresh("h");
                 out.push(s(format!("{n} = #'{ty} {{ | ='int => 1 | 2 }}")));
                 self.hfns.push(n);
@@ -411,8 +432,8 @@ impl Property for C11 {
         vec!["line_value_compared", "vars_compared", "rejected_line_between_accepted", "line_with_several_steps", "second_session_interleaved", "repl_compaction_with_heap_locals", "background_process_awaited_on_later_line", "lines_after_top_level_tail_call", "vars_read_after_nil_line"]
     }
     fn generate(&self, rng: &mut Rng, _tier: Tier) -> Scenario {
-        let mut g = G { ints: vec![], bins: vec![], tuples: vec![], fns: vec![], gfns: vec![], procs: vec![], hfns: vec![], optf: vec![], clsf: vec![], unions: vec![], narrowed: vec![], n: 0, last_int: false, lit: 0x20 };
-        let mut steps: Vec<Step> = vec![Step { src: super::c04::SPIN.to_string(), alias: false, fails: false, tailcall: false, narrows: None, needs_narrowed: None }, Step { src: WD.to_string(), alias: false, fails: false, tailcall: false, narrows: None, needs_narrowed: None }];
+        let mut g = G { ints: vec![], bins: vec![], tuples: vec![], fns: vec![], gfns: vec![], procs: vec![], hfns: vec![], optf: vec![], clsf: vec![], unions: vec![], narrowed: vec![], dispf: vec![], n: 0, last_int: false, lit: 0x20 };
+        let mut steps: Vec<Step> = vec![Step { src: super::c04::SPIN.to_string(), alias: false, fails: false, tailcall: false, narrows: None, needs_narrowed: None, dispatch_def: None, dispatch_call: None }, Step { src: WD.to_string(), alias: false, fails: false, tailcall: false, narrows: None, needs_narrowed: None, dispatch_def: None, dispatch_call: None }];
         let n = 4 + rng.usize(8);
         let mut h = crate::rng::Fnv::default();
         while steps.len() < n + 1 {
@@ -430,12 +451,12 @@ impl Property for C11 {
             let bound_at = steps.iter().position(|s| s.src.starts_with(&format!("{a} = ")) || s.src.contains(&format!("[{a}, ")) || s.src.contains(&format!(", {a}] ="))).unwrap_or(steps.len() - 1);
             let pos = bound_at + 1 + rng.usize(steps.len() - bound_at);
             let pos = (pos..=steps.len()).find(|p| *p >= steps.len() || (!steps[*p].alias && !steps[*p].src.starts_with("[~"))).unwrap_or(steps.len());
-            steps.insert(pos.min(steps.len()), Step { src: format!("{a} =999999"), alias: false, fails: false, tailcall: false, narrows: None, needs_narrowed: None });
+            steps.insert(pos.min(steps.len()), Step { src: format!("{a} =999999"), alias: false, fails: false, tailcall: false, narrows: None, needs_narrowed: None, dispatch_def: None, dispatch_call: None });
             h.u64(0x111);
         }
         if rng.chance(1, 8) && !g.ints.is_empty() {
             let a = g.ints[0].clone();
-            steps.push(Step { src: format!("[{a}, 0] __integer_divide__"), alias: false, fails: true, tailcall: false, narrows: None, needs_narrowed: None });
+            steps.push(Step { src: format!("[{a}, 0] __integer_divide__"), alias: false, fails: true, tailcall: false, narrows: None, needs_narrowed: None, dispatch_def: None, dispatch_call: None });
             h.u64(0xdead);
         }
         let mut rejected = Vec::new();
@@ -553,9 +574,20 @@ impl Property for C11 {
     }
     fn pinned(&self) -> Vec<super::Pinned> {
         // static facts established by a fallible pattern step are not carried to later lines
-        let st = |src: &str, narrows: Option<&str>, needs: Option<&str>| Step { src: src.to_string(), alias: false, fails: false, tailcall: false, narrows: narrows.map(|s| s.to_string()), needs_narrowed: needs.map(|s| s.to_string()) };
+        let st = |src: &str, narrows: Option<&str>, needs: Option<&str>| Step { src: src.to_string(), alias: false, fails: false, tailcall: false, narrows: narrows.map(|s| s.to_string()), needs_narrowed: needs.map(|s| s.to_string()), dispatch_def: None, dispatch_call: None };
         let mut out = Vec::new();
-        let cases: [(&'static str, &'static str, Vec<Step>, Vec<&str>); 2] = [
+        const DZ: &str = "dz = #('int | 'bin) { | =('int)n => n | =('bin)b => Bin }";
+        let cases: [(&'static str, &'static str, Vec<Step>, Vec<&str>); 3] = [
+            (
+                "C11/line-value/dispatch-specialisation-not-carried-across-lines",
+                "a function dispatching on its argument's type is defined on one line and called on a later one",
+                vec![
+                    Step { dispatch_def: Some("dz".to_string()), ..st(DZ, None, None) },
+                    Step { dispatch_call: Some("dz".to_string()), ..st("7 dz", None, None) },
+                    st("[~, 1] __integer_add__", None, None),
+                ],
+                vec![DZ, "7 dz", "[~, 1] __integer_add__"],
+            ),
             (
                 "C11/line-value/narrowing-not-carried-across-lines",
                 "a variable narrowed by a type pattern on one line is used at the narrowed type on the next",
@@ -677,6 +709,7 @@ impl Property for C11 {
         let mut any_nil_before = false;
         let mut frozen: Option<(usize, Vec<(String, String, String)>)> = None;
         let mut prev_line_fallible = false;
+        let mut line_start_of: std::collections::BTreeMap<usize, usize> = std::collections::BTreeMap::new();
         for (op, out) in r.ops.iter().zip(r.outs.iter()) {
             match op {
                 ClientOp::Line { session: 0, src } => {
@@ -727,9 +760,25 @@ impl Property for C11 {
                         // does it use the flowing value right after a line holding a fallible pattern step
                         // (whose result type therefore includes nil)?
                         let flow_maybe_nil = matches!(out, Out::CompileError(m) if m.contains("TypeMismatch")) && prev_line_fallible && e.steps[start..=end].iter().find(|s| !s.alias).is_some_and(|s| s.src.starts_with("[~"));
+                        // does it use the flowing value right after a line that ended with a call of a
+                        // dispatch function defined on an earlier line than that call?
+                        let dispatch_lost = matches!(out, Out::CompileError(m) if m.contains("TypeMismatch"))
+                            && (start..=end).any(|k| {
+                                if e.steps[k].alias || !e.steps[k].src.starts_with("[~") {
+                                    return false;
+                                }
+                                // the code step whose value flows into step k
+                                let Some(p) = (0..k).rev().find(|p| !e.steps[*p].alias) else { return false };
+                                let Some(f) = e.steps[p].dispatch_call.as_ref() else { return false };
+                                let Some(d) = e.steps.iter().position(|t| t.dispatch_def.as_ref() == Some(f)) else { return false };
+                                // the line the call sits on: this one, or an earlier accepted one
+                                let call_line_start = if p >= start { start } else { line_start_of.get(&p).copied().unwrap_or(0) };
+                                d < call_line_start
+                            });
                         let cause = match (out, expected) {
                             (Out::Value(_), Out::Value(_)) => "different-value",
                             (Out::CompileError(_), _) if narrowing_lost => "narrowing-not-carried-across-lines",
+                            (Out::CompileError(_), _) if dispatch_lost => "dispatch-specialisation-not-carried-across-lines",
                             (Out::CompileError(_), _) if flow_maybe_nil => "flow-typed-maybe-nil-after-fallible-line",
                             (Out::CompileError(_) | Out::ParseError, _) => "accepted-program-rejected-linewise",
                             (Out::RuntimeError(_), Out::Value(_)) => "runtime-error-linewise",
@@ -740,6 +789,9 @@ impl Property for C11 {
                         return v;
                     }
                     prev_line_fallible = e.steps[start..=end].iter().any(|s| s.narrows.is_some());
+                    for k in start..=end {
+                        line_start_of.insert(k, start);
+                    }
                     if matches!(expected, Out::Value(s) if s == "[]") || e.steps[start..=end].iter().any(|s| s.tailcall) {
                         if !any_nil_before {
                             // the step of this line at which the one-program form stops
